@@ -360,6 +360,21 @@ def typing_rules(ck, c):
     ck.ob("WHO", S[:-2], "stacks-shortened-only-by-their-primitives", short == want,
           "operands leave through pop_opd/mark_unreachable, frames through pop_ctrl" if short == want else
           "the validation stacks are also shortened by %s (missing: %s)" % (sorted(short - want), sorted(want - short)), "")
+    # ... and the instruction rules look at the stacks only through those primitives: an arm of validate() that reads
+    # `state.opds` directly sees operands that belong to the enclosing block (the primitives stop at the frame's base height)
+    f = getfn(ck, "sc", W, W + "::validate::validate")
+    if f:
+        direct = []
+        for bi in sorted(f.reachable()):
+            for st in f.stmts(bi):
+                rv = st.get("rv", {})
+                pl = rv.get("p") if rv.get("k") == "ref" else (op_place(rv.get("a")) if rv.get("k") == "use" else None)
+                if pl and any(re.search(r":opds$", str(x)) for x in pl[1]):
+                    # handing `&state` as a whole to the handler is not a direct access: only projections INTO the stacks count
+                    direct.append(bi)
+        ck.ob("WHO", f.path, "stacks-read-only-through-primitives", not direct,
+              "no arm of validate() reads state.opds directly (labels are looked up through the control stack's own methods)" if not direct else
+              "an instruction rule reads the operand/control stack directly (%d places): the frame's base height is bypassed" % len(direct), f.loc(direct[0]) if direct else f.loc())
     # mark_unreachable
     f = getfn(ck, "sc", W, S + "mark_unreachable")
     if f:
